@@ -22,32 +22,39 @@ VARIABLES m,        \* which widget this behaviour explores: "lst" | "dyn" | "pg
           st,       \* the widget's state (implementation-shaped record)
           k,        \* operations so far
           sel,      \* the selection changed and nothing but selection changes happened since
-          drawn     \* viewport height of the draw that produced st.kids (-1: none yet)
-vars == <<m, st, k, sel, drawn>>
+          drawn,    \* viewport height of the draw that produced st.kids (-1: none yet)
+          cause,    \* why the index may be out of range until the next draw (ListRel!CauseAfter)
+          follow    \* viewport of the unbroken run of draws after a selection change (ListRel!FollowAfterDraw)
+vars == <<m, st, k, sel, drawn, cause, follow>>
 
 (* ---- classic list ------------------------------------------------------- *)
-LstInit == \E n \in LstNs : m = "lst" /\ st = LNew(n) /\ k = 0 /\ sel = FALSE /\ drawn = -1
-LstOp(s2) == /\ st' = s2 /\ sel' = (sel \/ s2.index # st.index) /\ drawn' = -1
+Fresh == k = 0 /\ sel = FALSE /\ drawn = -1 /\ cause = "" /\ follow = <<>>
+LstInit == \E n \in LstNs : m = "lst" /\ st = LNew(n) /\ Fresh
+LstOp(s2) == /\ st' = s2 /\ sel' = (sel \/ s2.index # st.index) /\ drawn' = -1 /\ cause' = "" /\ follow' = <<>>
 LstNext ==
   /\ m = "lst" /\ ~st.crashed /\ k < MaxOps /\ k' = k + 1 /\ m' = m
   /\ \/ LstOp(LDown(st)) \/ LstOp(LUp(st)) \/ LstOp(LHome(st)) \/ LstOp(LEnd(st))
      \/ \E h \in LstHs : LstOp(LPageDown(st, h)) \/ LstOp(LPageUp(st, h))
      \/ \E n \in LstNs : LstOp(LSetItems(st, n))
-     \/ \E h \in LstHs : st' = LDraw(st, h) /\ drawn' = h /\ sel' = FALSE
+     \/ \E h \in LstHs : /\ st' = LDraw(st, h) /\ drawn' = h /\ sel' = FALSE /\ cause' = ""
+                          /\ follow' = FollowAfterDraw(sel, follow, 0, h, st.n)
 
 (* ---- builder-driven list ------------------------------------------------- *)
 DynInit == \E hs \in DynHeights : \E g \in DynGaps :
-              m = "dyn" /\ st = DNew(hs, g) /\ k = 0 /\ sel = FALSE /\ drawn = -1
-DynSelOp(s2) == /\ st' = s2 /\ sel' = (sel \/ s2.cursor # st.cursor) /\ drawn' = -1
-DynScrollOp(s2) == /\ st' = s2 /\ sel' = FALSE /\ drawn' = -1
+              m = "dyn" /\ st = DNew(hs, g) /\ Fresh
+DynOp(s2, op) == st' = s2 /\ drawn' = -1 /\ cause' = CauseAfter(cause, op, N(s2), s2.cursor) /\ follow' = <<>>
+DynSelOp(s2, op) == DynOp(s2, op) /\ sel' = (sel \/ s2.cursor # st.cursor)
+DynScrollOp(s2, op) == DynOp(s2, op) /\ sel' = FALSE
+MaxItems == CHOOSE n \in {Len(hs) : hs \in DynHeights} : \A hs \in DynHeights : Len(hs) <= n
 DynNext ==
   /\ m = "dyn" /\ ~st.crashed /\ k < MaxOps /\ k' = k + 1 /\ m' = m
-  /\ \/ DynSelOp(DNext(st)) \/ DynSelOp(DPrev(st))
-     \/ \E c \in 0..(N(st) - 1) : DynSelOp(DSetCursor(st, c))
-     \/ DynScrollOp(DWheelDown(st)) \/ DynScrollOp(DWheelUp(st))
-     \/ \E p \in {-2, 1} : DynScrollOp(DSetPending(st, p))
-     \/ \E hs \in DynHeights : Len(hs) > st.cursor /\ DynScrollOp(DReplace(st, hs))
-     \/ \E H \in DynViews : st' = DDraw(st, H) /\ drawn' = H /\ sel' = FALSE
+  /\ \/ DynSelOp(DNext(st), "next") \/ DynSelOp(DPrev(st), "prev")
+     \/ \E c \in 0..(MaxItems + 1) : DynSelOp(DSetCursor(st, c), "setcursorabs")       \* any index, also beyond the items
+     \/ DynScrollOp(DWheelDown(st), "wheeldown") \/ DynScrollOp(DWheelUp(st), "wheelup")
+     \/ \E p \in {-2, 1} : DynScrollOp(DSetPending(st, p), "pending")
+     \/ \E hs \in DynHeights : DynScrollOp(DReplace(st, hs), "replace")                 \* any replacement, also of the selected item
+     \/ \E H \in DynViews : /\ st' = DDraw(st, H) /\ drawn' = H /\ sel' = FALSE /\ cause' = ""
+                            /\ follow' = FollowAfterDraw(sel, follow, 0, H, N(st))
 
 (* ---- pager ------------------------------------------------------------------ *)
 Chars == {[g |-> 1, w |-> 1, nl |-> FALSE], [g |-> 2, w |-> 1, nl |-> FALSE],
@@ -55,7 +62,7 @@ Chars == {[g |-> 1, w |-> 1, nl |-> FALSE], [g |-> 2, w |-> 1, nl |-> FALSE],
 Texts == UNION {[1..n -> Chars] : n \in 0..MaxText}
 PgInit == \E tx \in Texts : \E w \in Widths :
              /\ Presentable(tx, w)
-             /\ m = "pg" /\ st = [text |-> tx, w |-> w] /\ k = 0 /\ sel = FALSE /\ drawn = -1
+             /\ m = "pg" /\ st = [text |-> tx, w |-> w] /\ Fresh
 
 Init == LstInit \/ DynInit \/ PgInit
 Next == LstNext \/ DynNext
@@ -64,15 +71,18 @@ Spec == Init /\ [][Next]_vars
 (* ---- the property's demands ---------------------------------------------- *)
 NoCrash == m \in {"lst", "dyn"} => ~st.crashed
 LstRange == m = "lst" /\ ~st.crashed => InRange(st.n, st.index)
-DynRange == m = "dyn" /\ ~st.crashed => InRange(N(st), st.cursor)
+(* out of range only between a replacement / a set-cursor beyond the items and the next draw *)
+DynRange == m = "dyn" /\ ~st.crashed => InRange(N(st), st.cursor) \/ (cause # "" /\ drawn = -1)
 LstLayout == m = "lst" /\ drawn >= 0 /\ ~st.crashed => LayoutOK(st.kids, st.n, 0)
 DynLayout == m = "dyn" /\ drawn >= 0 /\ ~st.crashed => LayoutOK(st.kids, N(st), st.gap) /\ OwnHeight(st.kids, st.hs)
 (* sel' is reset by the draw, so visibility is an action property: the draw *)
-(* that follows a selection change shows the selected item.                 *)
+(* that follows a selection change shows the selected item, and so does the *)
+(* same viewport drawn again with no operation in between (ListRel!MustShow; *)
+(* widths are not modelled: 0).                                              *)
 VisibleAfterSelect ==
-  [][ /\ drawn' > 0 /\ sel /\ ~st'.crashed
-      => IF m = "lst" THEN st'.n > 0 => Visible(st'.kids, st'.index, drawn')
-         ELSE N(st') > 0 => Visible(st'.kids, st'.cursor, drawn') ]_vars
+  [][ /\ drawn' > 0 /\ ~st'.crashed
+      => IF m = "lst" THEN MustShow(sel, follow, 0, drawn', st'.n) => Visible(st'.kids, st'.index, drawn')
+         ELSE MustShow(sel, follow, 0, drawn', N(st')) => Visible(st'.kids, st'.cursor, drawn') ]_vars
 PagerPresents == m = "pg" => Presents(PLayout(st.text, st.w), st.text, st.w)
 PagerClamps == m = "pg" => \A off \in -2..(2 * MaxText + 2) : \A h \in 0..3 :
                   Clamped(POffset(off, Len(PLayout(st.text, st.w)), h), Len(PLayout(st.text, st.w)), h)
